@@ -249,6 +249,32 @@ def _expressions(col, rule="C14.R2"):
     col.add(rule, "Table.__getitem__#column-expression-fallback", not bad and len({a for r in rets for a in S.alts(r.value)}) == 2, sx.loc(rets[0]),
             "a string is looked up as a column and otherwise evaluated as an expression over the *current* columns (numpy ufunc "
             "namespace), on every access (nothing is remembered per expression)", str(bad))
+    # every expression evaluation: eval(<the requested item>, gblmath, <the columns (or the row view of them)>)
+    n_eval = 0
+    for meth in ("__getitem__", "_select"):
+        ex = tctx(repo, meth)
+        for ev, m in ex.calls_some(("call", ("glob", "eval"), S.V("a"), S.V("k"))):
+            n_eval += 1
+            a = m["a"]
+            ns_ok = len(a) == 3 and not m["k"] and a[1] == ("glob", "gblmath")
+            cols_ok = len(a) == 3 and all(any(y == DATA for y in S.subterms(x)) for x in S.alts(a[2]))
+            if len(a) == 3 and not cols_ok and a[2] != ("glob", "gblmath") and a[2] != a[0] and a[2][:1] != ("const",):
+                raise AnalysisError(f"Table.{meth}: the local namespace of eval, `{S.show(a[2])[:60]}`, is not recognisably the columns (cannot decide)")
+            item_ok = len(a) == 3 and a[0] != ("glob", "gblmath") and any(not any(x == DATA for x in S.subterms(alt)) for alt in S.alts(a[0]))
+            col.add(rule, f"Table.{meth}#expression-evaluated-over-the-columns", ns_ok and cols_ok and item_ok, ex.loc(ev),
+                    "a column expression is evaluated as eval(item, gblmath, columns): numpy's element-wise functions as globals, the table's "
+                    "columns (or their row view) as locals", S.show(ev.term)[:100])
+    if n_eval < 2:
+        raise AnalysisError("Table.__getitem__/_select: the eval(...) fallbacks for column expressions were not found (cannot decide)")
+    # _select looks the item up in a plain mapping first: without the eval fallback an expression column cannot be selected
+    ex = tctx(repo, "_select")
+    for r, cs in _data_arg_contribs(ex):
+        colc = [c for c in cs if c[2][:1] == ("elem",) and not S.is_call_of(c[2][1], meth="keys")]
+        has_eval = any(S.is_call_of(x, ("glob", "eval")) for c in colc for x in S.alts(c[3]))
+        plain = any(x[:1] == ("sub",) and DATA in S.alts(x[1]) for c in colc for x in ((c[3],) if c[3][:1] != ("alt",) else c[3][1]))
+        if plain:
+            col.add(rule, "Table._select#expression-fallback", has_eval, ex.loc(r),
+                    "an item that is not a stored column is evaluated as an expression (the lookup in the data mapping alone raises KeyError)", "")
     sx = tctx(repo, "_select_cols")
     ok = any(c[3] == ("sub", S.SELF, c[2]) for r, cs in _data_arg_contribs(sx) for c in cs)
     col.add(rule, "Table._select_cols#expressions-via-getitem", ok, sx.loc(sx.fn),
